@@ -100,7 +100,12 @@ def hll_pool(rng, p, seed):
             rest = 0
         else:
             top = 1 << (bits - rank)
-            rest = top | rng.randrange(top)
+            # round 11 (S110): below the leading one, not only random bits but the extreme
+            # patterns (all ones, all ones but the last, all zeros, a lone low bit) at which a
+            # leading-zero count done in floating point or by comparison rounds the wrong way
+            style = rng.randrange(8)
+            low = {0: top - 1, 1: max(0, top - 2), 2: 0, 3: min(1, top - 1)}.get(style)
+            rest = top | (rng.randrange(top) if low is None else low)
         h = (rest << p) | idx
         pool.append(craft_key8(h, seed))
     # some bulk so that several registers are in play
@@ -425,6 +430,26 @@ def gen_workload(rng, world, mult, node=None):
         ev["key"] = _pick_key(rng, cfg)
         if rng.random() < 0.85:
             ev["v"] = draw_mult(rng, mult, thr)
+        if world.fam in ("linear", "hh") and rng.random() < cfg.get("land", 0.06) and any(c in mult for c in ("ceil", "half", "huge")):
+            # round 11 (S106): land the key's estimate exactly on (or next to) a power of two at
+            # which a narrower integer type would change behaviour; save/restart events that
+            # follow then carry a table whose maximum sits on that boundary
+            nd = world.nodes[i]
+            sk = nd.primary
+            if sk is not None:
+                try:
+                    k = unhex(ev["key"])
+                    est = int(sk.query(k)) if world.fam == "linear" else int(sk[world.ident(k)])
+                except Exception:
+                    est = None
+                if est is not None:
+                    # only in modes whose multiplicities already reach the ceiling: the others
+                    # keep the total mass below 2^32, as their statements assume, and merges
+                    # between replicas double whatever mass a landing puts in
+                    target = (1 << rng.choice([8, 16, 16, 24, 31])) + rng.choice([-1, 0, 0, 0, 1])
+                    if target > est:
+                        ev["v"] = target - est
+                        ev["landing"] = True
         if world.fam == "hh" and rng.random() < cfg.get("topup", 0.04):
             # top n_added up to an exact multiple of 1/phi: floor(phi * n_added), the
             # default query threshold, is then at (or a rounding error below) an integer
@@ -544,7 +569,11 @@ def gen_views(rng, world, kind):
     if kind == "attach":
         if len(n.views) >= 2 or getattr(n.primary, "shm", None) is None:
             return None
-        return {"op": "attach", "node": i, "how": "helper" if rng.random() < 0.4 else "method", "own_args": rng.random() < 0.7}
+        r = rng.random()
+        # round 11 (S112): a share of the views are themselves shared-memory sketches (they own a
+        # block of their own) before they attach to the node's block
+        how = "helper" if r < 0.4 else ("shared_view" if r > 0.85 else "method")
+        return {"op": "attach", "node": i, "how": how, "own_args": rng.random() < 0.7}
     if kind == "drop_view":
         if not n.views:
             return None
